@@ -305,6 +305,35 @@ def body_page(ctx, case):
     ctx.must("alto_import_raises", back.from_altoxml_string, xml)
     back_words = [l.transcription.split() for l in back.lines_iterator()]
     ctx.check(back_words == got_lines_all, "reimport_words_differ", lambda: "re-imported %r exported %r; " % (back_words, got_lines_all) + desc())
+    # ---- the transcriptions are corrected on the exported layout (same line objects, same logits) and exported again ----
+    tab_chars = [ch for ch in case["table"] if not ch.isspace()] or ["a"]
+    want2 = []
+    for reg in work.regions:
+        blk = []
+        for li, line in enumerate(reg.lines):
+            t = line.transcription
+            if t and t.strip():
+                ws = t.split()
+                edit = (li + len(ws)) % 4
+                if edit == 0:
+                    ws = ws + [tab_chars[0] * 2, tab_chars[-1]]
+                elif edit == 1:
+                    ws = ws[:-1]
+                elif edit == 2:
+                    ws = ws[::-1]
+                else:
+                    ws = [w + tab_chars[li % len(tab_chars)] for w in ws]
+                line.transcription = " ".join(ws)
+            t2 = line.transcription
+            if t2 and t2.strip():
+                blk.append([ah.label_form_to_string(w) for w in t2.split()] if own_is_arabic_line(t2) else t2.split())
+        want2.append(blk)
+    xml2 = ctx.must("alto_export_raises", work.to_altoxml_string, None, None, 0)
+    got2 = [[[w.get("CONTENT") for w in l["words"]] for l in b["lines"]] for b in walk(xml2)["blocks"]]
+    ctx.check(got2 == want2, "alto_words_differ_from_transcription_words",
+              lambda: "export after the transcriptions were corrected on the exported layout: exported %r expected %r; " % (got2, want2) + desc())
+    if any(b for b in want2):
+        ctx.event("re_export_after_correction")
     # export through the file API uses threshold 0
     if nt:
         ctx.nontrivial(repr(case))
